@@ -156,6 +156,12 @@ def portions_sub(chk, rng, w, wid):
     qunits = [s_ for s_ in w.units if w.quantum_of(s_) is not None and
               w.types[w.units[s_].tname].has_ref]
     u = rng.choice(qunits)
+    refs = [s_ for s_ in qunits
+            if w.types[w.units[s_].tname].ref == s_]
+    if refs and rng.random() < 0.5:
+        # half of the time the reference unit itself (whatever is derived
+        # from an amount at construction is most likely derived there)
+        u = rng.choice(refs)
     q = w.quantum_of(u)
     x = rng.randint(1, 400) * q
     n = rng.choice([3, 3, 6, 7])
@@ -298,7 +304,7 @@ def run(chk, R, tier, seed):
     for _ in range(n):
         st, jd = triple_sub(chk, rng, w, "predefined")
         cases.append(Case(st, wrap(jd)))
-    for _ in range(150 if tier == "quick" else 3000):
+    for _ in range(400 if tier == "quick" else 4000):
         st, jd = portions_sub(chk, rng, w, "predefined")
         cases.append(Case(st, wrap(jd)))
     chk.require("comparisons of allocate() results")
